@@ -250,7 +250,8 @@ def run(tier):
                 for f in list_files(out):
                     if f.endswith(".tif") and same:
                         with rasterio.open(os.path.join(out, f)) as a, rasterio.open(os.path.join(out2, f)) as b:
-                            same &= a.count == b.count and all(same_bits(a.read(i + 1), b.read(i + 1)) for i in range(a.count))
+                            same &= a.count == b.count and all(same_bits(a.read(i + 1), b.read(i + 1)) for i in range(a.count)) \
+                                and list(a.descriptions) == list(b.descriptions) and a.dtypes == b.dtypes
                 obs["replay_same_rasters"] = bool(same)
             else:
                 feat["replay_exception"] = repr(exc2)[:200]
